@@ -42,6 +42,42 @@ def prod(xs):
     return r
 
 
+class ViewData:
+    """The elements of a numpy view: positions `idx` of the element list `root` of the array that owns the memory.  Reads and
+    writes go through to the owner, so in-place updates of a view are seen by every array that shares the memory."""
+    __slots__ = ("root", "idx")
+
+    def __init__(self, root, idx):
+        if isinstance(root, ViewData):
+            root, idx = root.root, [root.idx[i] for i in idx]
+        self.root, self.idx = root, list(idx)
+
+    def __len__(self):
+        return len(self.idx)
+
+    def __iter__(self):
+        return (self.root[i] for i in self.idx)
+
+    def __getitem__(self, k):
+        if isinstance(k, slice):
+            return [self.root[i] for i in self.idx[k]]
+        return self.root[self.idx[k]]
+
+    def __setitem__(self, k, v):
+        if isinstance(k, slice):
+            v = list(v)
+            ids = self.idx[k]
+            if len(ids) != len(v):
+                raise Unsupported("internal: view assignment of %d values to %d elements" % (len(v), len(ids)))
+            for i, x in zip(ids, v):
+                self.root[i] = x
+        else:
+            self.root[self.idx[k]] = v
+
+    def address(self):
+        return ("addr", id(self.root), self.idx[0] if self.idx else -1)
+
+
 class Ten:
     """Dense row-major array of Rat."""
     __slots__ = ("shape", "data", "view")
@@ -420,6 +456,7 @@ class TenSym(PySym):
         axes = [p for p in plan if p[0] == "ax"]
         kept = [p for p in plan if p[0] == "new" or not p[3]]
         out = []
+        st_ = t.strides()
         for multi in itertools.product(*[range(s) for s in shape]):
             src_ = [0] * t.ndim
             for p in axes:
@@ -428,13 +465,19 @@ class TenSym(PySym):
             for pos, p in zip(multi, kept):
                 if p[0] == "ax":
                     src_[p[1]] = p[2][pos]
-            out.append(t.at(src_))
-        res = Ten(shape, out)
-        res.view = True         # numpy would hand out a view: a store into it is not modelled
-        return res.data[0] if res.shape == () else res
+            out.append(sum(i * s_ for i, s_ in zip(src_, st_)))
+        fancy = any(isinstance(k, (list, tuple)) for k in (key if isinstance(key, tuple) else (key,)))
+        if len(shape) == 0:
+            return t.data[out[0]]
+        if fancy:
+            return Ten(shape, [t.data[o] for o in out])      # integer-array indexing copies
+        res = Ten(shape, [t.data[o] for o in out])
+        res.data = ViewData(t.data, out)            # basic indexing: a view that shares the memory of t
+        res.view = True
+        return res
 
     def setitem(self, t, key, value, op=None):
-        if t.view:
+        if t.view and not isinstance(t.data, ViewData):
             raise Unsupported("store into a view of another array")
         pr = self._paired(t, key)
         if pr is not None:
@@ -545,6 +588,9 @@ class TenSym(PySym):
                     return prod(base.shape)
                 if n.attr == "dtype":
                     return "<dtype>"
+                if n.attr == "ctypes":
+                    # .ctypes.data: the address of the first element (two arrays that start at the same element of the same memory compare equal)
+                    return Obj(data=base.data.address() if isinstance(base.data, ViewData) else ("addr", id(base.data), 0))
             raise Unsupported("attribute %s" % src(n))
         if isinstance(n, ast.UnaryOp):
             v = self.ex(n.operand)
@@ -794,6 +840,20 @@ class TenSym(PySym):
                     recv.append(v)
                 else:
                     recv.extend(self.iterate(v))
+                return None
+            if isinstance(recv, list) and m in ("insert", "remove", "pop", "index"):
+                args = [self.ex(a) for a in n.args]
+                if m == "insert":
+                    recv.insert(self.concrete(args[0]), args[1])
+                    return None
+                if m == "pop":
+                    return recv.pop(*[self.concrete(a) for a in args])
+                hits = [k for k, x in enumerate(recv) if x is args[0] or (not isinstance(x, (Obj, Ten, Rat)) and not isinstance(args[0], (Obj, Ten, Rat)) and x == args[0])]
+                if not hits:
+                    raise Unsupported("list.%s of a value that is not in the list" % m)
+                if m == "index":
+                    return hits[0]
+                del recv[hits[0]]
                 return None
             if isinstance(recv, str) and m in ("lower", "upper"):
                 return getattr(recv, m)()
@@ -1258,7 +1318,7 @@ class TenSym(PySym):
                 return
             if isinstance(s.value, ast.Call) and (call_name(s.value) or "").split(".")[-1] in ("warn", "write", "print"):
                 return
-            if isinstance(s.value, ast.Call) and isinstance(s.value.func, ast.Attribute) and s.value.func.attr in ("append", "extend"):
+            if isinstance(s.value, ast.Call) and isinstance(s.value.func, ast.Attribute) and s.value.func.attr in ("append", "extend", "insert", "remove", "pop"):
                 self.ex(s.value)
                 return
             if isinstance(s.value, ast.Call) and isinstance(s.value.func, ast.Attribute) and s.value.func.attr == "sort":
